@@ -311,6 +311,59 @@ def family_parse_numbers():
             yield dict(op='parse', input=txt, expect='rejected', bad=lambda g: g[0] == 'OK')
 
 
+def family_matchers():
+    """C11: two or three name tests with patterns that collide under careless keying (case, suffixes, separators, escapes): the
+    number of matcher definitions equals the number of distinct (pattern, case-insensitivity) requests, and every reference in
+    the body names a definition whose pattern and matcher kind are those of the request"""
+    import itertools
+    pats = ['a', 'A', 'a*', 'a/i', 'a:i', 'ai', 'a\\b', 'a\\\\b', 'a"b', '[a]', 'a b']
+    kws = [('-name', False), ('-iname', True)]
+    reqs = [(kw, ci, p) for p in pats for (kw, ci) in kws]
+
+    def qt(p):
+        return "'%s'" % p
+
+    def kind(p, ci):
+        g = any(c in p for c in '?*[')
+        return ('fnmatch' if g else 'streq') + ('-ci' if ci else '')
+    for a, b in itertools.product(reqs, repeat=2):
+        inp = '%s %s -o %s %s' % (a[0], qt(a[2]), b[0], qt(b[2]))
+        distinct = len({(a[2], a[1]), (b[2], b[1])})
+
+        def bad(g, a=a, b=b, distinct=distinct):
+            if g[0] != 'OK':
+                return False
+            prog = g[1]
+            defs = re.findall(r'\(%lf3:match:(\d+) \(lambda \(%lf3:str:\d+\) \(([a-z-]+)\? "((?:[^"\\]|\\.)*)" %lf3:str:\d+\)\)\)', prog)
+            if len(defs) != distinct:
+                return True
+            refs = re.findall(r'\(call-with-name %lf3:match:(\d+)\)', prog)
+            if len(refs) != 2:
+                return True
+            bydef = {d[0]: (d[1], d[2]) for d in defs}
+            for (kw, ci, p), ref in zip((a, b), refs):
+                if ref not in bydef or bydef[ref] != (kind(p, ci), _scheme_esc(p)):
+                    return True
+            return False
+        yield dict(op='compile', input=inp, expect='%d matcher definition(s); each reference names the definition of its own pattern, case and kind' % distinct, bad=bad)
+
+
+def family_clock():
+    """C15 (bounded): the second embedded by a time test lies within the compile call, also for a second compile call made more than a
+    second after the first one in the same process"""
+    def bad(g):
+        if g[0] != 'OK' or len(g) < 4:
+            return False
+        t0, t1 = int(g[1]), int(g[2])
+        secs = [int(x) for x in re.findall(r'\(quotient \(- (\d+) \(', g[3])]
+        return not secs or any(not (t0 <= s <= t1) for s in secs)
+    yield dict(op='timed', input='-mmin -5', expect='embedded second within [start, end] of the compile call', bad=bad)
+    yield dict(op='sleep', input='1200', expect='', bad=lambda g: False)
+    yield dict(op='timed', input='-atime +1 -o -cmin 3', expect='embedded second within [start, end] of the compile call', bad=bad)
+    yield dict(op='sleep', input='1100', expect='', bad=lambda g: False)
+    yield dict(op='timed', input='-mtime -2', expect='embedded second within [start, end] of the compile call', bad=bad)
+
+
 def family_determinism():
     """the same input compiled many times in one process (every HashMap instance has its own random hash keys)"""
     inputs = ['-name a -o -iname a -o -name b -o -iname b', '( -name *.log -o -ipath *.log ) -fprint found.txt',
@@ -413,6 +466,7 @@ def family_hostile():
 
 
 GENERATED = {
+    'BOUNDED.clock_window': family_clock, 'C07.time_comp.text': family_clock,
     'BOUNDED.parse_options': family_options, 'BOUNDED.parse_total': family_parse_total, 'BOUNDED.parse_numbers': family_parse_numbers,
     'ASSUME.printer_map': family_table, 'C10.table.keys': family_table,
     'C09.top.wrap_decision': family_wrap, 'C19.action.iff': family_wrap, 'C09.emit.structure': family_wrap,
@@ -420,6 +474,8 @@ GENERATED = {
     'C11.body.matcher_ref': family_numbers, 'C13.top.threads_value': family_numbers, 'C13.update.threads': family_numbers,
     'ASSUME.string_truncate': family_panics,
     'C20.render.text': family_hostile, 'C04.escape.string': family_hostile,
+    'C11.local.matcher.share': family_matchers, 'C11.dist.matcher.share': family_matchers, 'C11.local.matcher.fresh': family_matchers,
+    'C11.dist.matcher.fresh': family_matchers, 'C11.local.matcher.model': family_matchers, 'C11.dist.matcher.model': family_matchers,
     'C11.local.definitions': family_determinism, 'C11.dist.definitions': family_determinism,
     'C11.local.matcher.text': family_determinism, 'C11.dist.matcher.text': family_determinism,
 }
@@ -483,6 +539,8 @@ CANNED = {
 
 # functions left outside the verifier (assumed contracts) that get a BOUNDED stand-in: the family is run on every check
 BOUNDED_STANDINS = {
+    'C15': [('BOUNDED.clock_window', 'BOUNDED.clock_window', 'compile_time_comp\'s clock read (SystemTime: no clock model in the verifier) — bounded stand-in: three '
+             'time-test compilations in one process more than a second apart; each embedded second must lie within its own compile call')],
     'C13': [('BOUNDED.parse_options', 'BOUNDED.parse_options', 'find_parser::_parse (winnow combinators and closures over &mut state: outside the verifier) — bounded '
              'stand-in: 1..2 options out of {-depth, -threads 2, -threads 8} inserted at every word boundary of 4 base expressions; the options returned '
              'carry the last value of each and the tree is that of the expression with misplaced options read as -true')],
